@@ -82,6 +82,7 @@ theorem processEvent_inv (h : Hooks) (hok : HooksOK h) (fl : Flavor) (m : Machin
     have hall := hsel s.cfg (u.genv s.ctx ev.type) ev sel hl0 hs
     generalize hf : (fun (s : St) (c : Cand) =>
           if s.err.isSome then s
+          else if finished s.status then s
           else if sel.length > 1 && !(s.cfg.contains c.src) then s
           else execute h fl m ev (planTransition m s.cfg s.hist c) s) = f
     -- fold invariant: legal; and with a single selected transition its source is still active
@@ -109,11 +110,18 @@ theorem processEvent_inv (h : Hooks) (hok : HooksOK h) (fl : Flavor) (m : Machin
           · exact ih s' hl (fun c' hc' => hok' c' (List.mem_cons_of_mem _ hc'))
               (fun c' _ hf' => absurd hgt hf') (fun hf' => absurd hgt hf')
           · rw [htail hgt]; exact hl
-        · by_cases hgt : sel.length > 1
+        · by_cases hfin : finished s'.status = true
+          · have hfc : f s' c = s' := by rw [← hf]; simp only [herr, hfin, if_true]; simp
+            rw [hfc]
+            by_cases hgt : sel.length > 1
+            · exact ih s' hl (fun c' hc' => hok' c' (List.mem_cons_of_mem _ hc'))
+                (fun c' _ hf' => absurd hgt hf') (fun hf' => absurd hgt hf')
+            · rw [htail hgt]; exact hl
+          by_cases hgt : sel.length > 1
           · by_cases hcs : s'.cfg.contains c.src = true
             · have hmem : c.src ∈ s'.cfg := by simpa using hcs
               have hfc : f s' c = execute h fl m ev (planTransition m s'.cfg s'.hist c) s' := by
-                rw [← hf]; simp [herr, hmem]
+                rw [← hf]; simp [herr, hfin, hmem]
               rw [hfc]
               have hstep := legal_microstep h hok fl m ev c s' hwf hi hl (hok' c (by simp)) hmem
               exact ih _ hstep (fun c' hc' => hok' c' (List.mem_cons_of_mem _ hc'))
@@ -121,12 +129,12 @@ theorem processEvent_inv (h : Hooks) (hok : HooksOK h) (fl : Flavor) (m : Machin
             · have hcs' : s'.cfg.contains c.src = false := by simpa using hcs
               have hnm : c.src ∉ s'.cfg := by simpa using hcs'
               have hfc : f s' c = s' := by
-                rw [← hf]; simp [herr, hgt, hnm]
+                rw [← hf]; simp [herr, hfin, hgt, hnm]
               rw [hfc]
               exact ih s' hl (fun c' hc' => hok' c' (List.mem_cons_of_mem _ hc'))
                 (fun c' _ hf' => absurd hgt hf') (fun hf' => absurd hgt hf')
           · have hfc : f s' c = execute h fl m ev (planTransition m s'.cfg s'.hist c) s' := by
-              rw [← hf]; simp [herr, hgt]
+              rw [← hf]; simp [herr, hfin, hgt]
             rw [hfc, htail hgt]
             exact legal_microstep h hok fl m ev c s' hwf hi hl (hok' c (by simp)) (hsrc c (by simp) hgt)
     apply fold sel s hl0 (fun c hc => (hall c hc).1)
